@@ -212,8 +212,8 @@ func (w *world) instances(h string) []*svcT {
 }
 
 func (w *world) isVSDest(h string) bool {
-	for _, v := range w.VS {
-		for _, d := range v.Dests {
+	for i := range w.VS {
+		for _, d := range w.effDests(&w.VS[i]) {
 			if d.Host == h {
 				return true
 			}
@@ -508,8 +508,18 @@ func judgeObservation(w *world, p proxyT, v *verdict, o *proxyObs) (fs []finding
 	for i := range w.VS {
 		vs := &w.VS[i]
 		want := map[string]bool{}
-		for _, dst := range vs.Dests {
+		for _, dst := range w.effDests(vs) {
 			want[fmt.Sprintf("outbound|%d||%s", dst.Port, dst.Host)] = true
+		}
+		// destinations of a delegate that is not exported to the rule's namespace must not be routed to
+		forbidden := map[string]bool{}
+		if vs.Delegate != nil && !w.delegateMerged(vs) {
+			for _, dst := range vs.Delegate.Dests {
+				c := fmt.Sprintf("outbound|%d||%s", dst.Port, dst.Host)
+				if !want[c] {
+					forbidden[c] = true
+				}
+			}
 		}
 		applied, where := false, ""
 		for _, vh := range o.VHosts {
@@ -528,6 +538,13 @@ func judgeObservation(w *world, p proxyT, v *verdict, o *proxyObs) (fs []finding
 				continue
 			}
 			got := setOf(vh.Clusters)
+			for c := range forbidden {
+				if got[c] {
+					add(fmt.Sprintf("rule-leak:delegate-virtualservice|proxy=%s|delegate-ns=%s", p.Type, nsRel(p, vs.Delegate.NS)),
+						"%s (namespace %s): virtual host %s/%s routes to %s, the destination of delegate VirtualService %s/%s (exportTo %s, mesh default %s), which is not exported to namespace %s of the rule %s/%s that references it",
+						p.Name, p.NS, vh.RouteConfig, vh.Name, c, vs.Delegate.NS, vs.Delegate.Name, etName(vs.Delegate.ExportTo), etName(w.Mesh.VSDefault), vs.NS, vs.NS, vs.Name)
+				}
+			}
 			all := true
 			for c := range want {
 				if !got[c] {
@@ -553,7 +570,11 @@ func judgeObservation(w *world, p proxyT, v *verdict, o *proxyObs) (fs []finding
 	}
 
 	// ---- DestinationRule application: marker on the delivered clusters
-	if len(w.DR) > 0 {
+	// MeshConfig.defaultDestinationRuleExportTo = "~": the MeshConfig reference gives the field "the same
+	// syntax as defaultServiceExportTo" (which lists ~), while "~" is not a legal DestinationRule exportTo
+	// value and the implementation honours only "." and "*" there. The text leaves the meaning open, so
+	// the rule lookup is not judged under that setting (byte comparisons still are).
+	if len(w.DR) > 0 && !contains(w.Mesh.DRDefault, "~") {
 		for _, c := range o.Clusters {
 			hv := v.Hosts[c.Host]
 			if hv == nil || !hv.May {
